@@ -685,6 +685,15 @@ def search(ctx):
                          f"({kind}, seed {sd}) that loads without error",
                          {"kind": "guaranteed-mutant", "file": name, "seed": sd, "module": modname, "attr": a})
     ctx.extra_cov["mutated_files_loaded_and_checked_against_guaranteed"] = nmut
+    # (2b') selection failures of the public entry points happen before the file is touched
+    for fn in ("load_one", "load_many", "dump_one", "dump_many"):
+        for name, fmt in (("x.unknownext", None), ("noext", None), ("x.xyz", "nope"), ("x.xyz", ""),
+                          (("POSCAR.1", None) if fn in ("load_many", "dump_many") else ("x.log", None) if fn == "dump_one" else ("x.nothing", None)),
+                          ("x.dat2", "gaussianlog" if fn.startswith("dump") or fn == "load_many" else "nope")):
+            bad = check_api_select_before_open(fn, name, fmt)
+            ctx.count("search-select-before-open", [fn, name, fmt], "ok" if bad is None else "bad")
+            if bad:
+                ctx.fail(bad[0], bad[1], {"kind": "select-before-open", "fn": fn, "name": name, "fmt": fmt})
     # (2c) names that are not programs with an input writer (helper modules of the package, format names, misspellings)
     import pkgutil
 
@@ -747,6 +756,53 @@ def check_input_name(name):
     return None
 
 
+def check_api_select_before_open(fn, name, fmt):
+    """the public entry points on a path that does not exist, with a name / format for which selection fails: the
+    documented FileFormatError comes before any attempt to open the file (no FileNotFoundError, nothing created)"""
+    import builtins
+
+    import numpy as np
+    from iodata import IOData, api
+    from iodata.utils import FileFormatError
+
+    mol = IOData(atnums=np.array([1]), atcoords=np.zeros((1, 3)))
+    opened = []
+    orig_open = builtins.open
+
+    def spy(file, *a, **k):
+        opened.append(str(file))
+        return orig_open(file, *a, **k)
+
+    with tempfile.TemporaryDirectory(prefix="c17s-") as tmp:
+        path = os.path.join(tmp, name)
+        builtins.open = spy
+        try:
+            with warnings.catch_warnings():
+                warnings.simplefilter("ignore")
+                kw = {} if fmt is None else {"fmt": fmt}
+                if fn == "load_one":
+                    api.load_one(path, **kw)
+                elif fn == "load_many":
+                    for _ in api.load_many(path, **kw):
+                        break
+                elif fn == "dump_one":
+                    api.dump_one(mol, path, **kw)
+                else:
+                    api.dump_many([mol], path, **kw)
+            outcome = "no-exception"
+        except FileFormatError:
+            outcome = "FileFormatError"
+        except Exception as exc:  # noqa: BLE001
+            outcome = type(exc).__name__
+        finally:
+            builtins.open = orig_open
+        touched = [p for p in opened if p == path] or (["created"] if os.path.exists(path) else [])
+    if outcome != "FileFormatError" or touched:
+        return (f"select-after-open:{fn}", f"{fn}({name!r}, fmt={fmt!r}) on a missing path: {outcome}"
+                + (", the path was opened" if touched else "") + "; expected FileFormatError before any file access")
+    return None
+
+
 def _replay_mutant(inp):
     res = _mutant_worker((inp["file"], [inp["seed"]]))
     return any(inp["attr"] in r[5] for r in res)
@@ -764,6 +820,8 @@ def replay(ctx, obj):
             if res[0] == inp["file"] and res[1] == inp["op"] and inp["attr"] in res[4]:
                 return True
         return False
+    if inp["kind"] == "select-before-open":
+        return check_api_select_before_open(inp["fn"], inp["name"], inp["fmt"]) is not None
     if inp["kind"] == "input-name":
         return check_input_name(inp["name"]) is not None
     if inp["kind"] == "required":
